@@ -226,6 +226,11 @@ def tasks_for(tier):
         for rev in (False, True):
             tasks.append({"atoms": SUB_ATOMS[:2], "fluents_a": ["(f o3)", "(h o3 o1)"], "fluents_b": ["(f o3)", "(h o3 o1)"],
                           "reverse_b": rev, "empty_keys": rev, "route_b": route})
+    # fluents with a repeated argument, the second state rebuilt by the trajectory parser (with / without a problem)
+    for route in ("trajectory_without_problem", "trajectory"):
+        for rev in (False, True):
+            tasks.append({"atoms": ATOMS[1:3], "fluents_a": ["(h o2 o2)", "(f o1)"], "fluents_b": ["(h o2 o2)", "(f o1)"],
+                          "reverse_b": rev, "empty_keys": rev, "route_b": route})
     # the two states are built by different routes of the library (problem parser vs trajectory parser with a problem)
     for fa in (FLUENTS[:1], []):
         for rev in (False, True):
